@@ -3,12 +3,14 @@ Each declaration d of a name is given the type int[0,100+d], so the binding of a
 Produces the item tree for the Coq model (drv_scope syntax), the XML model, and the list of observation points."""
 import re
 
-NAMES = {1: 'a', 2: 'b', 3: 'c'}
+NAMES = {1: 'a', 2: 'b', 3: 'c', 4: 't'}
 
 
 class Gen:
-    def __init__(self, rng):
+    def __init__(self, rng, mark=False):
         self.rng = rng
+        self.mark = mark     # write every occurrence of a name as \x01d<id>:<name>\x02 / \x01u<k>:<name>\x02 (see instantiate)
+        self.nuse = 0
         self.nd = 0          # declaration ids
         self.nu = 0          # holder ids
         self.nf = 0
@@ -20,6 +22,13 @@ class Gen:
     def decl_id(self):
         self.nd += 1
         return self.nd
+
+    def dn(self, x, d):
+        return '\x01d%d:%s\x02' % (d, NAMES[x]) if self.mark else NAMES[x]
+
+    def un(self, x):
+        self.nuse += 1
+        return '\x01u%d:%s\x02' % (self.nuse - 1, NAMES[x]) if self.mark else NAMES[x]
 
     def ty(self, d):
         return 'int[0,%d]' % (100 + d)
@@ -33,7 +42,7 @@ class Gen:
         ns = [self.pick() for _ in range(n)]
         for x in ns:
             self.tree.append('u%d' % x)
-        return ' + '.join(NAMES[x] for x in ns), n
+        return ' + '.join(self.un(x) for x in ns), n
 
     def holder(self, pfx_kind, fname=None):
         """int uK = <uses>;  possibly through a quantifier that binds one of the names; or  t uK;  a use of the type name t"""
@@ -42,20 +51,21 @@ class Gen:
         if self.tvis[-1] and self.rng.random() < 0.3:
             self.tree.append('u4')
             self.obs.append((pfx_kind + ':type', (fname, h), 1))
-            return 't %s;' % h
+            return '%s %s;' % (self.un(4), h)
         if self.rng.random() < 0.25:
             x = self.pick(); d = self.decl_id()
             self.tree.append('('); self.tree.append('d%d,%d' % (x, d))
+            bn = self.dn(x, d)
             if self.rng.random() < 0.4:
                 # the body of a quantifier extends as far as possible: an unparenthesised conditional belongs to it as a whole
                 e1, n1 = self.uses_expr(h); e2, n2 = self.uses_expr(h); e3, n3 = self.uses_expr(h)
                 e, n = '%s ? %s : %s' % (e1, e2, e3), n1 + n2 + n3
                 self.tree.append(')')
-                text = 'int %s = sum (%s : %s) %s;' % (h, NAMES[x], self.ty(d), e)
+                text = 'int %s = sum (%s : %s) %s;' % (h, bn, self.ty(d), e)
             else:
                 e, n = self.uses_expr(h)
                 self.tree.append(')')
-                text = 'int %s = sum (%s : %s) (%s);' % (h, NAMES[x], self.ty(d), e)
+                text = 'int %s = sum (%s : %s) (%s);' % (h, bn, self.ty(d), e)
         else:
             e, n = self.uses_expr(h)
             text = 'int %s = %s;' % (h, e)
@@ -70,10 +80,10 @@ class Gen:
             d = self.decl_id()
             self.tree.append('d4,%d' % d)
             self.tvis[-1] = True
-            return 'typedef %s t;' % self.ty(d)
+            return 'typedef %s %s;' % (self.ty(d), self.dn(4, d))
         x = self.pick(); d = self.decl_id()
         self.tree.append('d%d,%d' % (x, d))
-        return '%s %s;' % (self.ty(d), NAMES[x])
+        return '%s %s;' % (self.ty(d), self.dn(x, d))
 
     def block_items(self, depth, kind, fname):
         """declarations / holders, then nested scopes (blocks, iterations): the order a block allows"""
@@ -93,7 +103,7 @@ class Gen:
                     for _ in range(self.rng.choice([1, 1, 2, 3])):
                         x = self.pick(); d = self.decl_id()
                         self.tree.append('('); self.tree.append('d%d,%d' % (x, d))
-                        heads.append('for (%s : %s)' % (NAMES[x], self.ty(d)))
+                        heads.append('for (%s : %s)' % (self.dn(x, d), self.ty(d)))
                     self.tree.append('('); self.tvis.append(self.tvis[-1]); self.there.append(False)
                     body = self.block_items(depth + 1, kind, fname)
                     self.tree.append(')'); self.tvis.pop(); self.there.pop()
@@ -113,7 +123,7 @@ class Gen:
             used.add(x)
             d = self.decl_id()
             self.tree.append('d%d,%d' % (x, d))
-            params.append('%s %s' % (self.ty(d), NAMES[x]))
+            params.append('%s %s' % (self.ty(d), self.dn(x, d)))
         body = self.block_items(1, 'funlocal', fname)
         self.tree.append(')'); self.tvis.pop(); self.there.pop()
         return 'void %s(%s) { %s }' % (fname, ', '.join(params), ' '.join(body))
@@ -137,7 +147,7 @@ class Gen:
             used.add(x)
             d = self.decl_id()
             self.tree.append('d%d,%d' % (x, d))
-            params.append('%s %s' % (self.ty(d), NAMES[x]))
+            params.append('%s %s' % (self.ty(d), self.dn(x, d)))
         decl = self.decl_block('t%d var' % ti)
         locs = []
         nl = self.rng.randrange(1, 3)
@@ -155,7 +165,7 @@ class Gen:
             if self.rng.random() < 0.6:
                 x = self.pick(); d = self.decl_id()
                 self.tree.append('d%d,%d' % (x, d))
-                sel = '<label kind="select">%s : %s</label>' % (NAMES[x], self.ty(d))
+                sel = '<label kind="select">%s : %s</label>' % (self.dn(x, d), self.ty(d))
             e, n = self.uses_expr(None)
             self.obs.append(('guard', (ti, ei), n))
             self.tree.append(')')
@@ -171,6 +181,31 @@ class Gen:
         xml = ('<?xml version="1.0" encoding="utf-8"?><nta><declaration>%s</declaration>%s<system>%s\nsystem %s;</system></nta>'
                % (g, ''.join(ts), sysd, ', '.join('T%d' % k for k in range(len(ts)) if False) or 'T0'))
         return ' '.join(self.tree), xml, self.obs
+
+
+def instantiate(text, decl=None, uses=(), fresh=None):
+    """a marked text (Gen(mark=True)) with every occurrence spelled by its name, except declaration `decl` and the uses listed, which are spelled `fresh`"""
+    def sub(m):
+        kind, num, name = m.group(1), int(m.group(2)), m.group(3)
+        if fresh is not None and ((kind == 'd' and num == decl) or (kind == 'u' and num in uses)):
+            return fresh
+        return name
+    return re.sub('\x01([du])(\\d+):(\\w+)\x02', sub, text)
+
+
+def scope_local_names(tree):
+    """for every declaration id of a tree (drv_scope tokens): (name, the names declared more than once in its scope?)"""
+    toks, stack, where = tree.split(), [[]], {}
+    for t in toks:
+        if t == '(':
+            stack.append([])
+        elif t == ')':
+            stack.pop()
+        elif t[0] == 'd':
+            n, d = t[1:].split(',')
+            stack[-1].append(n)
+            where[int(d)] = (int(n), stack[-1])
+    return {d: (n, sc.count(str(n)) > 1) for d, (n, sc) in where.items()}
 
 
 def sexpr(text):
